@@ -171,6 +171,8 @@ def run_builder_timing(spec, props):
     fn = spec["fn"]
     n = spec["n"]; es = [tuple(e) for e in spec["edges"]]
     G = gr.mk(n, es)
+    if spec.get("directed"):
+        G = nx.DiGraph(); G.add_nodes_from(range(n)); G.add_edges_from(es)     # directed contact network
     D = [num(x) for x in spec["menu"]]
     weights = spec.get("weights", True)
     nodes = list(range(n))
@@ -539,6 +541,8 @@ def specs_c17(tier):
         m = [0, 1, "inf"] if len(es) >= 3 else [0, 1, 2, "inf"]
         out.append(dict(kind="timing", fn="estimate_nonMarkov_SIR_prob_size_with_timing", n=n, edges=es, menu=m if n <= 3 else [1, 2]))
         out.append(dict(kind="markov", fn="estimate_directed_SIR_prob_size", n=n, edges=es, tau=0.3, gamma=0.7, menu=[0.5, 1.6]))
+    for des in ([(0, 1), (1, 2)], [(0, 1), (1, 0), (1, 2)], [(0, 1), (2, 1)]):
+        out.append(dict(kind="timing", fn="estimate_nonMarkov_SIR_prob_size_with_timing", n=3, edges=des, menu=[0, 1, 2, "inf"], directed=True))
     return out
 
 
@@ -548,6 +552,9 @@ def specs_c11_builders(tier):
     small = [gr.NAMED[k] for k in ("P2", "P3", "K3")] + [(3, [(0, 1)]), (2, [])]
     if thorough:
         small += [gr.NAMED["S4"], gr.NAMED["P4"]]
+    for des in ([(0, 1), (1, 2)], [(0, 1), (1, 0), (1, 2)], [(0, 1), (2, 1)]):
+        for w in (True, False):
+            out.append(dict(kind="timing", fn="nonMarkov_directed_percolate_network_with_timing", n=3, edges=des, menu=[0, 1, 2, "inf"], weights=w, directed=True))
     for n, es in small:
         for w in (True, False):
             m = [0, 1, "inf"] if len(es) >= 3 else [0, 1, 2, "inf"]
